@@ -562,7 +562,11 @@ def run(tier, seed):
 
     # ---- clause 1 once more, through the real proc_macro bridge inside a real rustc process (vlib/c20real.py)
     from . import c20real
-    real_stats, real_docs = c20real.run(seed, {"quick": 40, "thorough": 3000}[tier], shim, roots, texts, goods)
+    try:
+        real_stats, real_docs = c20real.run(seed, {"quick": 40, "thorough": 3000}[tier], shim, roots, texts, goods)
+    except c20real.HostUnavailable as e:
+        # the tier needs a nightly rustc; without one the gensim tiers above still decide the clause
+        real_stats, real_docs = {"skipped": str(e)[:600]}, []
     for d in real_docs:
         path = C.replay_path(PROP, C.safe_name("%s-seed%d-%s" % (tier, seed, d["class"])) + ".json")
         d.update({"seed": seed, "tier": tier, "replay_cmd": "./check replay " + path})
